@@ -24,11 +24,11 @@ for d in sorted(p for p in S.iterdir() if p.is_dir() and (p / "meta.json").exist
     rows.append((d.name, meta.get("property", d.name[:3]), summ, ", ".join(caught) or "-", ", ".join(m for m in missed) or "-"))
 out = ["### 0.7 Seeded changes and the checks that catch them",
        "",
-       f"{len(rows)} changes to TorchJD were produced by independent sub-agents (six waves of up to two per property; each agent saw",
+       f"{len(rows)} changes to TorchJD were produced by independent sub-agents (seven waves of up to two per property; each agent saw",
        "only the text of one property and its own scratch worktree of /repo, nothing from /verif), each with a",
        "demonstration program.  Every one was confirmed in a scratch worktree (`tools/confirm_seeded.py`: the patch applies",
        "to /repo HEAD, the whole unedited test-suite passes with it, the demonstration fails with it and passes without it)",
-       "and filed under `seeded/<id>/` (`patch.diff`, `demo.py`, `meta.json`; suffixes A,B = first wave, C,D = second, E,F = third, G,H = fourth, I,J = fifth, K,L = sixth).",
+       "and filed under `seeded/<id>/` (`patch.diff`, `demo.py`, `meta.json`; suffixes A,B = first wave, C,D = second, E,F = third, G,H = fourth, I,J = fifth, K,L = sixth, M = seventh).",
        "`tools/seeded_matrix.py` runs the check of the change's own property (quick, then thorough if quick is silent; some",
        "neighbouring checks too) against a scratch copy of the sources with the change applied - /repo itself is never",
        "touched.  Results (`seeded/RESULTS.json`):",
@@ -40,7 +40,7 @@ for sid, prop, summ, c, m in rows:
 ncaught = sum(1 for r in rows if r[3] != "-")
 own_miss = [r[0] for r in rows if not any(c.startswith(r[0][:3] + " ") for c in r[3].split(", "))]
 out += ["", f"{ncaught} of {len(rows)} seeded changes are caught by at least one check; {len(rows) - len(own_miss)} by the check of the property their "
-            f"author was given, in the quick tier.  The others: " + ", ".join(own_miss) + " - C02I, C06I and C06K leave valid calls "
+            f"author was given, in the quick tier.  The others: " + ", ".join(own_miss) + " - C02I, C06I, C06K and C06M leave valid calls "
             "unchanged and break C20 (a rejected call writes .grad first, or an enumerated fault is no longer refused): they are caught by "
             "C20; C03J moves the boundary `s < norm_eps` to `<=` and only matrices whose largest singular value is bitwise equal to "
             "`norm_eps` behave differently (0.6, deliberately not claimed)."]
